@@ -12,6 +12,7 @@ cd "$WT" || exit 3
 git checkout -q --detach "$(git -C /repo rev-parse HEAD)" 2>/dev/null
 git checkout -- . && git clean -fdq -e target
 git apply "$PATCH" || { echo "CONFIRM: patch does not apply"; exit 3; }
+mkdir -p "$WT/target"
 cargo nextest run --workspace --no-fail-fast --offline > "$WT/target/confirm.log" 2>&1
 python3 /verif/tools/compare_baseline.py "$WT/target/confirm.log"
 RC=$?
